@@ -117,23 +117,24 @@ def expected : RowFacts :=
     -- `lookup`), `store`: signed → `viaCast … "ToInt64" (canInt …) (asInt .i64)`, unsigned → `"ToUint64"` /
     -- `canUint` / `asInt .u64`, floats → `"ToFloat64"` / `canFloat` / `asF64` (the single-value assertions are
     -- the panic sites `row.MapTo: i.(int64)` …); `.str` / `.bool` / `.bytes` by the field's kind
-    -- (String = 24, Bool = 1, Slice = 23 of Uint8 = 8).
+    -- (String = 24, Bool = 1, Slice = 23 of Uint8 = 8).  Listed by type name (the clauses are exclusive); a clause
+    -- that tests the guard before the cast is the same clause (`MapCase.castFirst`: the casters have no effect).
     mapTo := .fields 22 25 "LcFirst" "Get" [
-      ("int", .viaCast "ToInt64" "CanInt" "SetInt" "int64"),
-      ("int64", .viaCast "ToInt64" "CanInt" "SetInt" "int64"),
-      ("int32", .viaCast "ToInt64" "CanInt" "SetInt" "int64"),
-      ("int16", .viaCast "ToInt64" "CanInt" "SetInt" "int64"),
-      ("int8", .viaCast "ToInt64" "CanInt" "SetInt" "int64"),
-      ("uint", .viaCast "ToUint64" "CanUint" "SetUint" "uint64"),
-      ("uint64", .viaCast "ToUint64" "CanUint" "SetUint" "uint64"),
-      ("uint32", .viaCast "ToUint64" "CanUint" "SetUint" "uint64"),
-      ("uint16", .viaCast "ToUint64" "CanUint" "SetUint" "uint64"),
+      ("[]byte", .whenSliceOf 23 8 "SetBytes"),
+      ("bool", .whenKind 1 "SetBool"),
       ("byte", .viaCast "ToUint64" "CanUint" "SetUint" "uint64"),
       ("float32", .viaCast "ToFloat64" "CanFloat" "SetFloat" "float64"),
       ("float64", .viaCast "ToFloat64" "CanFloat" "SetFloat" "float64"),
+      ("int", .viaCast "ToInt64" "CanInt" "SetInt" "int64"),
+      ("int16", .viaCast "ToInt64" "CanInt" "SetInt" "int64"),
+      ("int32", .viaCast "ToInt64" "CanInt" "SetInt" "int64"),
+      ("int64", .viaCast "ToInt64" "CanInt" "SetInt" "int64"),
+      ("int8", .viaCast "ToInt64" "CanInt" "SetInt" "int64"),
       ("string", .whenKind 24 "SetString"),
-      ("bool", .whenKind 1 "SetBool"),
-      ("[]byte", .whenSliceOf 23 8 "SetBytes")],
+      ("uint", .viaCast "ToUint64" "CanUint" "SetUint" "uint64"),
+      ("uint16", .viaCast "ToUint64" "CanUint" "SetUint" "uint64"),
+      ("uint32", .viaCast "ToUint64" "CanUint" "SetUint" "uint64"),
+      ("uint64", .viaCast "ToUint64" "CanUint" "SetUint" "uint64")],
     -- `Value.cloneValue` per cell of `LRow.iter` into a fresh row (Gen.Sites.cloneUses); `Cells.raw (.row ms)` =
     -- the map of `rawList ms`; `Value.exportVal (.row ms)` = the map of `exportMembers`, the first error kept.
     copies := [
